@@ -26,4 +26,8 @@ F_WWRR == <<WAU, WAU, RAU, RAU>>
 G_RWRT == <<RAU, WAU, RAU, TWAU>>
 G_WWRT == <<WAU, WAU, RAU, TRAU>>
 EagerOn == TRUE
+ToggleOn == TRUE
+H_WWWR == <<WAU, WAU, WAU, RAU>>
+H_WWW2 == <<WAU \o WAU, WAU, WAU>>
+H_WW2 == <<WAU \o WAU, WAU \o WAU>>
 =============================================================================
